@@ -38,3 +38,41 @@ func VerifC02Load(files map[string][]byte, cfgYAML string, mode conformancev1.Te
 	sort.Strings(names)
 	return names, nil
 }
+
+// VerifC02Perm is one permutation of the library as Run would compute it: its name, the axes the
+// expectation generator reads, and the populated expected response.
+type VerifC02Perm struct {
+	Name     string
+	Codec    conformancev1.Codec
+	Protocol conformancev1.Protocol
+	UseGet   bool
+	Service  string
+	Method   string
+	Expected *conformancev1.ClientResponseResult
+}
+
+// VerifC02LoadPerms is VerifC02Load returning, for every permutation, what populateExpectedResponses
+// left in it (parseTestSuites + parseConfig + newTestCaseLibrary + allPermutations, sorted by name).
+func VerifC02LoadPerms(files map[string][]byte, cfgYAML string, mode conformancev1.TestSuite_TestMode, clientIsGRPC, serverIsGRPC bool) ([]VerifC02Perm, error) {
+	suites, err := parseTestSuites(files)
+	if err != nil {
+		return nil, err
+	}
+	cases, err := parseConfig("cfg.yaml", []byte(cfgYAML))
+	if err != nil {
+		return nil, err
+	}
+	lib, err := newTestCaseLibrary(suites, cases, mode)
+	if err != nil {
+		return nil, err
+	}
+	var out []VerifC02Perm
+	for _, tc := range lib.allPermutations(clientIsGRPC, serverIsGRPC) {
+		out = append(out, VerifC02Perm{
+			Name: tc.Request.TestName, Codec: tc.Request.Codec, Protocol: tc.Request.Protocol, UseGet: tc.Request.UseGetHttpMethod,
+			Service: tc.Request.GetService(), Method: tc.Request.GetMethod(), Expected: tc.ExpectedResponse,
+		})
+	}
+	sort.Slice(out, func(i, j int) bool { return out[i].Name < out[j].Name })
+	return out, nil
+}
